@@ -86,7 +86,7 @@ def sync_overlay(dest=OVERLAY, src=REPO):
             shutil.copy2(esrc, os.path.join(dest, ex["dest"]))
         st = os.stat(parent)
         with open(parent, "a") as f:
-            f.write("\n#[cfg(kani)]\nmod %s;\n" % m["mod"])
+            f.write("\n#[cfg(kani)]\npub(crate) mod %s;\n" % m["mod"])
         mt = max(st.st_mtime, spec_mtime)
         os.utime(parent, (mt, mt))
         report.append({"module": m["mod"], "parent": m["parent"], "harness_file": m.get("file") or m.get("gen"),
